@@ -117,7 +117,16 @@ type ChanSpec struct {
 	Where  string
 }
 
+// DataCheck is an obligation on the literal value of a package-level table.
+type DataCheck struct {
+	Var   string
+	Kind  string // "nonempty_entries", "no_entry_is_proper_prefix_of_a_later_entry"
+	Props []string
+	Where string
+}
+
 type Specs struct {
+	Data    []*DataCheck
 	Sorts   []string
 	Funs    []*FunDecl
 	FunIdx  map[string]*FunDecl
@@ -189,7 +198,7 @@ func splitTop(s string, sep byte) []string {
 }
 
 var topKeywords = map[string]bool{"sort": true, "fun": true, "def": true, "rec": true, "macro": true, "const": true, "ghost": true, "axiom": true,
-	"lemma": true, "func": true, "extern": true, "iface": true, "functype": true, "chantype": true}
+	"lemma": true, "table": true, "func": true, "extern": true, "iface": true, "functype": true, "chantype": true}
 var clauseKeywords = map[string]bool{"requires": true, "ensures": true, "modifies": true, "loop": true, "invariant": true,
 	"decreases": true, "pure": true, "flag": true, "props": true, "safety": true, "induct": true, "inv": true,
 	"at": true, "assert": true, "iter_ensures": true, "ghostset": true, "rely": true, "onsend": true, "onrecv": true, "assume": true}
@@ -378,6 +387,17 @@ func (sp *Specs) ParseSpecText(path, text string, raw bool) error {
 			curLemma = &LemmaDecl{Name: strings.TrimSpace(rest[:op]), Params: ps, Where: where}
 			sp.Lemmas = append(sp.Lemmas, curLemma)
 			curF, curChan = nil, nil
+		case "table":
+			parts := strings.Fields(rest)
+			if len(parts) < 2 {
+				return fmt.Errorf("%s: table needs a variable and a check", where)
+			}
+			dc := &DataCheck{Var: parts[0], Kind: parts[1], Where: where}
+			for _, p := range parts[2:] {
+				dc.Props = append(dc.Props, p)
+			}
+			sp.Data = append(sp.Data, dc)
+			curF, curLemma, curChan = nil, nil, nil
 		case "chantype":
 			// chantype "<go type>" (v)
 			m := regexp.MustCompile(`^"([^"]+)"\s*\((\w+)\)$`).FindStringSubmatch(rest)
